@@ -11,6 +11,7 @@
 #include <nlohmann/json.hpp>
 
 #include <fstream>
+#include <sched.h>
 
 using namespace st;
 using json = nlohmann::json;
@@ -67,11 +68,19 @@ int main(int argc, char** argv) {
   long from = a.num("from", 0), to = a.num("to", 1L << 40), cap = a.num("cap", 100); int bound = (int)a.num("bound", 2);
   unsigned seed = (unsigned)a.num("seed", 1);
   bool allStopSites = a.num("stopsites", 1) != 0;
+  long kbase = a.num("kbase", 0);
+  {   // only one controlled thread runs at a time: keep the whole process on one CPU (a hand-off within a core is much cheaper)
+    long ncpu = sysconf(_SC_NPROCESSORS_ONLN); cpu_set_t cs; CPU_ZERO(&cs);
+    if (ncpu > 0 && sched_getaffinity(0, sizeof cs, &cs) == 0) {
+      std::vector<int> allowed; for (int i = 0; i < CPU_SETSIZE; ++i) if (CPU_ISSET(i, &cs)) allowed.push_back(i);
+      if (!allowed.empty()) { cpu_set_t one; CPU_ZERO(&one); CPU_SET(allowed[(size_t)getpid() % allowed.size()], &one); sched_setaffinity(0, sizeof one, &one); }
+    }
+  }
   long execs = 0, steps = 0, lost = 0;
   std::set<std::string> distinct;
 
   auto runOne = [&](const json& sc, long x, long k, const std::function<vrt::RunResult(vrt::Ctl&)>& drive) {
-    long unit = x * 100000 + k;            // execution id: scenario * 100000 + schedule number
+    long unit = x * 100000 + kbase + k;    // execution id: scenario * 100000 + (50000 for random schedules) + schedule number
     vrt::ev("{\"e\":\"Reset\",\"x\":%ld,\"scn\":%ld,\"k\":%ld,\"pipe\":%s}", unit, x, k, sc["pipe"].dump().c_str());
     vrt::log_flush();
     std::fprintf(stderr, "@@X %ld\n", unit);
@@ -162,10 +171,12 @@ int main(int argc, char** argv) {
     const json& sc = scns[x];
     if (mode == "dfs") {
       vrt::Dfs d; d.bound = bound; long k = 0;
-      do { runOne(sc, x, k, [&](vrt::Ctl& c) { return vrt::run_dfs(c, d); }); ++k; } while (d.advance() && k < cap);
+      long capx = cap * sc.value("capx", 1);
+      do { runOne(sc, x, k, [&](vrt::Ctl& c) { return vrt::run_dfs(c, d); }); ++k; } while (d.advance() && k < capx);
     } else {
       std::mt19937 rng(seed * 7919u + (unsigned)x);
-      for (long k = 0; k < cap; ++k) runOne(sc, x, k, [&](vrt::Ctl& c) { return vrt::run_random(c, rng, 35); });
+      long capx = cap * sc.value("capx", 1);
+      for (long k = 0; k < capx; ++k) runOne(sc, x, k, [&](vrt::Ctl& c) { return vrt::run_random(c, rng, 35); });
     }
   }
   vrt::log_close();
